@@ -90,6 +90,37 @@ type c15Env struct {
 	res                 *verifResult
 	restarts            int
 	restartTime         time.Duration
+	// the per-connection settings (PRAGMA journal_mode, synchronous, cache_size ...) of the handles the
+	// production initDB opened, asked before they were replaced (at set-up and at every restart), and what
+	// of them is replayed on the wrapping driver's connections
+	connProbes  []verifConnProbe
+	connCarried map[string][]string
+}
+
+// Ask the handles initDB built for their per-connection settings (several connections each) and have the
+// wrapping driver apply the same on the connections that replace them.  Called while st.db / st.cacheDB are
+// still the production handles.
+func (e *c15Env) probeConnections(st *RuntimeState) {
+	if e.connCarried == nil {
+		e.connCarried = map[string][]string{}
+	}
+	for _, h := range []struct {
+		name, file string
+		db         *sql.DB
+	}{{"cache", e.cacheFile, st.cacheDB}, {"primary", e.primFile, st.db}} {
+		probes, err := verifProbeDB(h.db, h.name, 3)
+		if err != nil {
+			e.t.Fatalf("probing the %s handle: %v", h.name, err)
+		}
+		if len(e.connProbes) < 64 {
+			e.connProbes = append(e.connProbes, probes...)
+		}
+		carried, err := verifCarryConnSettings(h.file, probes)
+		if err != nil {
+			e.t.Fatalf("carrying the %s connection settings over: %v", h.name, err)
+		}
+		e.connCarried[h.name] = carried
+	}
 }
 
 func c15Setup(t *testing.T, res *verifResult) *c15Env {
@@ -110,6 +141,7 @@ func c15Setup(t *testing.T, res *verifResult) *c15Env {
 	e := &c15Env{t: t, env: env, st: st, res: res}
 	e.primFile = filepath.Join(st.Config.Base.DataDirectory, profileDBFilename)
 	e.cacheFile = filepath.Join(st.Config.Base.DataDirectory, cachedDBFilename)
+	e.probeConnections(st)
 	st.db.Close()
 	st.cacheDB.Close()
 	var err error
@@ -165,6 +197,7 @@ func (e *c15Env) restart() {
 		e.t.Fatalf("restart: SignerIsReady not signalled")
 	}
 	e.env.finishStartup()
+	e.probeConnections(st)
 	st.db.Close()
 	st.cacheDB.Close()
 	if st.cacheDB, err = verifOpenFaultDB(e.cacheFile); err != nil {
